@@ -247,7 +247,7 @@ def run_tie(run, tier, seed):
                          "regenerated list, with the implementation")
 
     # ---------------------------------------------------------------- valid designs
-    n_des = 44 if quick else 400
+    n_des = 44 if quick else 300
     items, k = [], 0
     while len(items) < n_des and k < 40 * n_des:
         d = gen_base(seed, "valid", k)
@@ -284,7 +284,7 @@ def run_tie(run, tier, seed):
 
     # ---------------------------------------------------------------- single-fault mutants: a failing module, then other calls
     from . import c02
-    n_f = 10 if quick else 100
+    n_f = 10 if quick else 60
     fitems, k = [], 0
     per = {}
     while len(fitems) < n_f * len(FAULT_CLASSES) // 2 and k < 60 * n_f:
@@ -318,6 +318,7 @@ def run_tie(run, tier, seed):
                designs=len(fitems), per_class=per, calls=sum(len(o["calls"]) for _, _, o, _ in fres),
                calls_that_raised=sum(1 for _, _, o, _ in fres for c in o["calls"] if not c["ok"]),
                calls_that_returned=sum(1 for _, _, o, _ in fres for c in o["calls"] if c["ok"]),
+               netlister_refusals_after_elaboration=sum(1 for _, _, o, _ in fres for c in o["calls"] if c.get("netlister")),
                agree=sum(1 for r in fres if r[3] == 0), outside_modelled_fragment=sum(1 for r in fres if r[3] == 5),
                rule="every case is a history over a single-fault mutant (harness/vp/c02.py mutators) of a generated design with >= 3 modules; "
                     "non-trivial = all (each history calls into the faulty module and into modules that do not contain it)",
